@@ -245,3 +245,10 @@ NEUTRALS = [
     M("finally with inverted test", _A, "if prev is None:\n                if hasattr(self, \"_checkpoint_defaults\"):\n                    delattr(self, \"_checkpoint_defaults\")\n            else:\n                self._checkpoint_defaults = prev",
       "if prev is not None:\n                self._checkpoint_defaults = prev\n            else:\n                if hasattr(self, \"_checkpoint_defaults\"):\n                    delattr(self, \"_checkpoint_defaults\")"),
 ]
+
+# functions the property is anchored in (auto-mutant sweep of the thorough tier)
+ANCHORS = [
+    'aspire.aspire:Aspire.auto_checkpoint',
+    'aspire.utils:PoolHandler.__enter__',
+    'aspire.utils:PoolHandler.__exit__',
+]
